@@ -70,10 +70,10 @@ CHECKS = {
         'Still differential only: the C run/trace/exec_frame/load loops (modelled by hand in C10/C13/C20), dec_a, the C init_* table code (4.2M table entries read back through the real handlers and compared with simtables.py each run).',
    note=TB + 'translators py2lean.py and c2lean.py (C-to-Int mapping trusted: u8/u32/i32/u64 wraps after every arithmetic operation, gcc -fwrapv; every macro text, out7ffd(), typedefs and struct fields are checked verbatim, anything outside the subset is a translator break); PEEK/POKE = MemLike, OUT = portOut, self->contend = Model/Contend, tracer C-API blocks = input stream/output log: modelled, validated per slot against the real C extension (36k cases/run, both builds, 48K and 128K)', ref='§8 C06'),
  'C19': dict(cat='proof', technique='Lean 4 theorems over the model regenerated from cmiosimulator.py (generic tactic per closure), a hand model of the delay tables (tied exhaustively), and an INDEPENDENT bus-cycle specification (Spec/Z80Bus.lean: ordered memory/I-O cycles of every instruction form, written from the documented contention tables) against which the delay of every closure is proved exactly + exact-T oracle on the real contended simulators',
-   text='39 theorems. Per closure, no exclusions: contended = plain on registers/flags/memory/PC/interrupt state/port sequence (F bits 5/3 of BIT n,(HL) aside) and never fewer T-states; outside the display window every closure takes exactly the plain T-states; window constants tied, sound and tight; delay tables follow the 6,5,4,3,2,1,0,0 pattern on both frame layouts (all 69888+70908 entries). '
+   text='41 theorems. Per closure, no exclusions: contended = plain on registers/flags/memory/PC/interrupt state/port sequence (F bits 5/3 of BIT n,(HL) aside) and never fewer T-states; outside the display window every closure takes exactly the plain T-states; window constants tied, sound and tight; delay tables follow the 6,5,4,3,2,1,0,0 pattern on both frame layouts (all 69888+70908 entries). '
         'New: delay_equals_documented_pattern — for the instruction decoded at PC (through C05\'s independent decoder), from any RInv state inside the window, T_contended = T_plain + fold of the documented wait pattern over the specification\'s cycles in order (busDelay), for every instruction; the spec\'s cycle lengths add up to the manual\'s T-states for all 7x256 opcodes and both branch outcomes (kernel-decided); '
         'corollaries same_tstates_if_no_contended_address, delay_is_sum_in_order, io_cases, delay_equals_pattern_everywhere (all frame positions). One instruction differs from the documented pattern: the five repeat cycles of OTIR/OTDR use the pre-decrement BC (known finding bus-delay-otir-repeat-bc, pinned by a test of the suite): the documented-variant theorem carries exactly that side condition, the as-implemented variant is proved unconditionally, and otir_repeat_cycles_differ exhibits the 0-vs-18 T-state witness. '
-        'The C CPATTERN blocks are tied by the exact-T oracle and differential execution only; interrupt acceptance is excluded; single step.',
+        'The C CPATTERN blocks: Props/C19C.lean (c_delay_equals_pattern, c_delay_equals_documented_pattern) — contended C step = plain C step + the specification\'s delay, over the C handler bodies translated on every run (C06); interrupt acceptance is excluded; single step.',
    note=TB + 'generated Z80 models (translator validated per slot) + hand models Model/Contend, Spec/Z80Bus (written from recollection of the documented tables: its totals are checked against the ISA T-states, and it agrees with both real contended simulators on 150k cases per quick run / 1.4M thorough); independent Python oracle harness/indep/z80bus.py compared with the Lean spec each run', ref='§8 C19'),
  'C17': dict(cat='proof', technique='Lean 4 theorems (induction over digit lists, progressions, balanced push/pop sequences, syntax trees) on a text-level model of expand_macros + model/implementation correspondence + e2e oracles (ASM vs HTML vs position)',
    text='32 theorems: Python integer semantics of the operators evaluate() lets through (floor division, modulo sign, two\'s-complement bit ops), precedence parser round trip for every syntax tree, '
@@ -92,9 +92,9 @@ CHECKS = {
         'Operand formatting variants and rst_handler are outside the theorems (correspondence/e2e).',
    note=TB + 'data tables dumped by calling the real functions (translate/gen_c07.py), decode wrappers are hand models tied by exhaustive correspondence (122k cases/run)', ref='§8 C07'),
  'C05': dict(cat='proof', technique='Lean 4 refinement: the simulator model regenerated from simulator.py each run is proved equal, step for step and for every in-range state, to an independent ISA-level Z80 specification (algorithmic decoder + executable semantics); flag tables proved equal to a bit-level spec by kernel enumeration of all 1.05M entries; translator tie per slot + e2e spec-vs-four-simulators',
-   text='54 theorems: alu_<T>_correct for all 34 flag/result tables (every entry); dispatch_*_ok for all 1792 slots of the seven tables against the independent x/y/z/p/q decoder incl. IXh/IXl, SLL, DDCB register copies, ED duplicates (length, both T-state counts, M1 count); '
+   text='57 theorems: alu_<T>_correct for all 34 flag/result tables (every entry); dispatch_*_ok for all 1792 slots of the seven tables against the independent x/y/z/p/q decoder incl. IXh/IXl, SLL, DDCB register copies, ED duplicates (length, both T-state counts, M1 count); '
         'closure_refines_spec for all 76 closures (16-bit ADD/ADC/SBC flags, block instructions, RLD/RRD, DAA by general bit lemmas); sim_refines_spec: RInv s -> Sim.step cfg s = Spec.step cfg s (full strength, 48K and 128K instances); run_refines_spec for any number of steps; '
-        'cmio_refines_spec (contended simulator equals the spec step except T, MEMPTR, F bits 5/3) and c_dispatch_ok (C tables, through C06). The C handler bodies are tied differentially only; block instructions are specified per iteration; BIT n,(HL) bits 5/3 follow the plain simulators.',
+        'cmio_refines_spec (contended simulator equals the spec step except T, MEMPTR, F bits 5/3) and c_dispatch_ok (C tables, through C06). The C simulators: Props/C05C.lean (3 theorems: c_refines_spec, c_run_refines_spec, c_cmio_refines_spec) — the C handler bodies translated from c/csimulator.c on every run (C06) execute every instruction exactly as the specification does, under the C representation bounds and, for port writes on 128K, an attached tracer; block instructions are specified per iteration; BIT n,(HL) bits 5/3 follow the plain simulators.',
    note=TB + 'generated Z80 model (py2lean translator validated per slot against all four real simulators each run) + independent spec Spec/Z80Isa, Z80Decode, Z80Sem, Z80Alu16 written from the Z80 manual; 1.19M real simtables entries compared with an independent Python oracle each run', ref='§8 C05'),
  'C10': dict(cat='proof', technique='Lean 4 theorems: per-closure frame-shift commutation and duration bounds generated from simulator.py/cmiosimulator.py each run, induction over the trace loops (Python next_int loop = stateless C loop), save/restore composition on hand models of the SZX/Z80 state path + model/implementation correspondence + e2e every split point on trace.py',
    text='23 theorems: step and the whole trace loop (incl. accept_interrupt) commute with shifting T by whole frames, for every closure of both simulators; 0 <= dT <= 23 (plain) / 143 (contended); python_loop_eq_c_loop; the probed port is the port read; '
